@@ -39,6 +39,10 @@ pub enum Act {
     DeclareFaultsDup(Vec<u64>),
     DeclareRecoveredDup(Vec<u64>),
     TerminateDup(Vec<u64>),
+    /// ExtendSectorExpiration2: 0 = sector 1 by one period; 1 = sectors 1 and 3 (two declarations,
+    /// different partitions when they live apart) to the same new expiration; 2 = sectors 1 and 2
+    /// (two declarations for the same partition when they live together) to different expirations
+    Extend(u8),
     /// pre-commit a committed-capacity sector (locks a pre-commit deposit)
     PreCommit(u64),
     /// prove-commit a pre-committed sector (deposit released, pledge locked); bad = invalid proof
@@ -123,6 +127,8 @@ pub struct LifeCfg {
     /// a second active miner whose deadlines end at the same epochs as the subject's (it proves
     /// every window by default); judged by the model-free oracles only
     pub bystander: bool,
+    /// ExtendSectorExpiration2 shapes in the menu
+    pub extensions: bool,
 }
 
 pub struct W {
@@ -584,6 +590,12 @@ impl Life {
             "one-deadline" | "one-deadline-aged" | "one-deadline-aged-debt" | "one-deadline-aged-f12" | "one-deadline-aged-pc" | "one-deadline-aged-wound-debt" => {
                 commit(&[1, 2, 3], d0, now + 80);
             }
+            // one long-lived and two short-lived sectors in one deadline: a fault of the long-lived one
+            // two periods before the others expire times out in the very cron that expires them
+            "mixed-expiry-aged" => {
+                commit(&[1], d0, now + 300);
+                commit(&[2, 3], d0, now + 96);
+            }
             // proven sectors whose latest PoSt carried an invalid proof; its deadline has just closed
             // (the dispute window is open)
             "bad-post-closed" | "bad-post-closed-debt" => {
@@ -822,6 +834,7 @@ impl Scenario for Life {
             Act::DeclareFaultsDup(_) => "declare-faults(declaration listed twice)".into(),
             Act::DeclareRecoveredDup(_) => "declare-recovered(declaration listed twice)".into(),
             Act::TerminateDup(_) => "terminate(declaration listed twice)".into(),
+            Act::Extend(k) => format!("extend-expiration shape{k}"),
             Act::PreCommit(_) => "pre-commit".into(),
             Act::ProveCommit(_, bad) => format!("prove-commit bad={bad}"),
             Act::ProveCommitTwice(_) => "prove-commit (sector named twice)".into(),
@@ -871,6 +884,11 @@ impl Scenario for Life {
         for d in 0..4 {
             v.push(Act::Dispute(d));
             v.push(Act::Compact(d));
+        }
+        if self.cfg.extensions {
+            for k in 0..3 {
+                v.push(Act::Extend(k));
+            }
         }
         v.push(Act::Onboard { number: 4, dl_off: 0 });
         v.push(Act::Onboard { number: 4, dl_off: 1 });
@@ -1194,6 +1212,47 @@ impl Scenario for Life {
                             sm.gone = true;
                             sm.faulty = false;
                             sm.recovering = false;
+                        }
+                    }
+                    accepted_dev = true;
+                    outcome = "accepted";
+                } else {
+                    outcome = "rejected";
+                }
+            }
+            Act::Extend(k) => {
+                let period = vm.policy.wpost_proving_period;
+                let exp = |s: u64| before.sectors.get(&s).map(|i| i.expiration);
+                let groups: Vec<(Vec<u64>, Option<i64>)> = match k {
+                    0 => vec![(vec![1], exp(1).map(|e| e + period))],
+                    1 => {
+                        let e = exp(1).and_then(|a| exp(3).map(|b| a.max(b) + period));
+                        vec![(vec![1], e), (vec![3], e)]
+                    }
+                    _ => vec![(vec![1], exp(1).map(|e| e + period)), (vec![2], exp(2).map(|e| e + 2 * period))],
+                };
+                let mut decls = vec![];
+                for (ss, e) in &groups {
+                    if let (Some(e), Some((d, p, _))) = (e, before.part_of(ss[0])) {
+                        decls.push((d, p, ss.clone(), *e));
+                    }
+                }
+                let r = extend2(vm, c.w, c.m, &decls);
+                if let Err(e) = all_ok(&r) {
+                    bad!(e);
+                }
+                if let Some(e) = self.pen("expiration extension", &before, vm, &r, None, &TokenAmount::zero()) {
+                    bad!(e);
+                }
+                if r.ok() && decls.len() == groups.len() {
+                    // the sector model has no expirations of its own (they are read from the sector
+                    // infos); every derived index is recomputed by the standing oracles
+                    let after = view(vm, c.m).unwrap();
+                    for (_, _, ss, e) in &decls {
+                        for s in ss {
+                            if after.sectors.get(s).map(|i| i.expiration) != Some(*e) {
+                                bad!(format!("accepted extension of sector {s} to {e} but its recorded expiration is {:?}", after.sectors.get(s).map(|i| i.expiration)));
+                            }
                         }
                     }
                     accepted_dev = true;
